@@ -32,13 +32,13 @@ def rand_value(rng, ptype, tl, pool=None):
     return bytes(rng.randrange(256) for _ in range(w))
 
 
-def gen_schema(rng, nested, max_leaves=5):
+def gen_schema(rng, nested, max_leaves=5, no_repeated=False):
     """returns elements (DFS, root first)"""
     elems = [{'name': 'schema', 'type': None, 'repetition': None, 'num_children': 0}]
 
     def leaf(name):
         t = rng.choice(TYPES)
-        return {'name': name, 'type': t, 'type_length': rng.randrange(1, 24) if t == P.FLBA else 0, 'repetition': rng.choice([0, 1, 1] + ([2] if nested else [])), 'num_children': 0}
+        return {'name': name, 'type': t, 'type_length': rng.randrange(1, 24) if t == P.FLBA else 0, 'repetition': rng.choice([0, 1, 1] + ([2] if nested and not no_repeated else [])), 'num_children': 0}
     count = [0]
 
     def group(depth):
@@ -47,8 +47,8 @@ def gen_schema(rng, nested, max_leaves=5):
         for _ in range(n):
             if count[0] >= max_leaves:
                 break
-            if nested and depth < 4 and rng.random() < 0.35:
-                g = {'name': 'g%d' % len(elems_flat), 'type': None, 'repetition': rng.choice([0, 1, 2]), 'num_children': 0}
+            if nested and depth < 4 and rng.random() < (0.5 if no_repeated else 0.35):
+                g = {'name': 'g%d' % len(elems_flat), 'type': None, 'repetition': rng.choice([0, 1] if no_repeated else [0, 1, 2]), 'num_children': 0}
                 elems_flat.append(g)
                 sub = group(depth + 1)
                 if not sub:
@@ -140,7 +140,7 @@ def gen_levels(rng, elems, leaf, nrecords):
 def gen_file(rng, nested=False, features=None):
     """returns (bytes, leaves, model, info, feature dict)"""
     feat = dict(features or {})
-    elems = gen_schema(rng, nested)
+    elems = gen_schema(rng, nested, no_repeated=bool((features or {}).get('no_repeated'))) if (features or {}).get('no_repeated') else gen_schema(rng, nested)
     leaves = P.schema_leaves(elems)
     codec = feat.get('codec', rng.choice([0, 1, 2, 6, 7]))
     opt = P.WriteOptions(codec=codec, crc=feat.get('crc', rng.random() < 0.6), long_fields=feat.get('long_fields', rng.choice([False, False, 'maybe', True])),
@@ -284,6 +284,9 @@ def run_c02(c, exe, base, scale):
     import vlib
     d = os.path.join(base, 'ref'); os.makedirs(d, exist_ok=True)
     corpus = make_corpus(d, c.seed * 31 + 5, 60 if scale >= 2 else 16, nested_share=0.3)
+    # small nested-only files: many tree shapes (groups that close together with their parents, siblings after deep groups) for the
+    # projections by index, by leaf name and by dot-separated path
+    corpus += make_corpus(d, c.seed * 31 + 6, 60 if scale >= 2 else 20, nested_share=1.0, features={'records': 25, 'ngroups': 1, 'no_repeated': True})
     shards = []
     per = 4
     for i in range(0, len(corpus), per):
